@@ -15,8 +15,10 @@ pub mod c12;
 pub mod c13;
 pub mod c14;
 pub mod c15;
+pub mod c16;
 pub mod c17;
 pub mod c18;
+pub mod c20;
 
 #[derive(Clone, Copy, Debug, PartialEq, Eq, PartialOrd, Ord)]
 pub enum Scale {
@@ -236,12 +238,15 @@ pub fn run(rep: &Report) -> Option<u64> {
         "C08" => Some(c08::run(rep)),
         "C09" => Some(c09::run(rep)),
         "C10" => Some(c10::run(rep)),
+        "C11" => Some(c11::run(rep)),
         "C12" => Some(c12::run(rep)),
         "C13" => Some(c13::run(rep)),
         "C14" => Some(c14::run(rep)),
         "C15" => Some(c15::run(rep)),
+        "C16" => Some(c16::run(rep)),
         "C17" => Some(c17::run(rep)),
         "C18" => Some(c18::run(rep)),
+        "C20" => Some(c20::run(rep)),
         _ => None,
     }
 }
